@@ -390,7 +390,9 @@ class Frame:
         self.fdef = fdef
 
 
-VALUE_TYPES = (int, bool, bytes, str, list, dict, tuple, type(None), VInt, VBool, VBytes, VSeq, VHex, VOpaque, range)
+from .sym import VWord, VPhrase, VStr  # noqa: E402
+VALUE_TYPES = (int, bool, bytes, str, list, dict, tuple, type(None), VInt, VBool, VBytes, VSeq, VHex, VOpaque, range,
+               VWord, VPhrase, VStr)
 
 EXC_BY_NAME = {n: getattr(builtins, n) for n in dir(builtins)
                if isinstance(getattr(builtins, n), type) and issubclass(getattr(builtins, n), BaseException)}
